@@ -151,7 +151,7 @@ impl<T> ChanReceiver<T> {
 
 /// the session endpoint as the engine sees it
 /// `waiters_released` (ghost): the completion channels of the deliveries the session's sending links still wait on have been closed (Session::abandon_pending_deliveries, unit SESSION)
-pub struct SessS { pub st: SessionState, pub stop: Option<SessionStopReason>, pub conn_stop: OnceCell<ConnectionStopReason>, pub ch: u16, pub opaque_state: Ghost<int>, pub waiters_released: Ghost<bool> }
+pub struct SessS { pub st: SessionState, pub stop: Option<SessionStopReason>, pub conn_stop: OnceCell<ConnectionStopReason>, pub ch: u16, pub opaque_state: Ghost<int>, pub waiters_released: Ghost<bool>, pub begun_with: Ghost<Option<(IncomingChannel, Begin)>> }
 pub open spec fn end_frame(ch: u16, error: Option<AmqpError>) -> SessionFrame {
     SessionFrame { channel: ch, body: SessionFrameBody::End(End { error }) }
 }
@@ -189,6 +189,15 @@ impl SessS {
         ensures final(self).st == old(self).st, final(self).ch == old(self).ch, final(self).conn_stop == old(self).conn_stop,
             final(self).stop == (if old(self).stop is None { Some(reason) } else { old(self).stop }),
     { unimplemented!() }
+    /// Session::send_begin (unit SESSION [C13.session.begin-sent]): one Begin frame on the session's own channel, UNMAPPED -> BEGIN-SENT (or BEGIN-RCVD -> MAPPED)
+    #[verifier::external_body]
+    pub fn send_begin(&mut self, writer: &mut ChanSender<SessionFrame>) -> (r: Result<(), SessionStateError>)
+        ensures final(self).ch == old(self).ch, final(self).stop == old(self).stop, final(self).conn_stop == old(self).conn_stop,
+            r is Ok ==> final(writer).sent@.len() == old(writer).sent@.len() + 1 && final(writer).sent@.drop_last() == old(writer).sent@
+                && final(writer).sent@.last().channel == old(self).ch && final(writer).sent@.last().body is Begin,
+            r is Err ==> final(writer).sent@ == old(writer).sent@ && final(self).st == old(self).st && (r->Err_0 is IllegalState || r->Err_0 is ConnectionStopped),   // unit SESSION [C14.session.begin-failure-is-local]
+            final(writer).failures@ == old(writer).failures@ || r is Err,
+    { unimplemented!() }
     /// Session::abandon_pending_deliveries (unit SESSION [C14.session-stop.every-sending-relay-reached], unit LINK [C14.session-stop.every-waiter-released])
     #[verifier::external_body]
     pub fn abandon_pending_deliveries(&mut self)
@@ -197,7 +206,7 @@ impl SessS {
     { unimplemented!() }
     #[verifier::external_body]
     pub fn on_incoming_begin(&mut self, channel: IncomingChannel, begin: Begin) -> (r: Result<(), SessionStateError>)
-        ensures final(self).ch == old(self).ch,
+        ensures final(self).ch == old(self).ch, final(self).begun_with@ == Some((channel, begin)), r is Err ==> r->Err_0 is IllegalState,     // unit SESSION [C14.session.begin-refusal-is-local]
             // contract [C13.session.begin-received] of unit SESSION: a Begin is accepted in UNMAPPED / BEGIN-SENT only
             !(old(self).st is Unmapped || old(self).st is BeginSent) ==> r is Err && final(self).st == old(self).st,
     { unimplemented!() }
@@ -555,6 +564,51 @@ impl SessionEngine {
         }),                                                                                                       // [C13.session.stop-reason-matches-outcome] [C14.stop-reason.says-who-stopped-and-why] the links of a stopped session are told why: the peer's End (with its error), the connection's stop reason, or a plain end
         final(self).outgoing.sent@ == old(self).outgoing.sent@,                                                    // [C13.session.nothing-after-end] tearing the engine down writes nothing on the session's channel
         final(self).session.waiters_released@,                                                                      // [C14.session-stop.pending-sends-released] when the session engine stops, every send that still waits for its delivery's outcome is released (it then reports the recorded stop reason): the unsettled maps are shared with the links and outlive the session's relays, so without this a pending `send()` -- and the outcome of every earlier batchable send -- waits for ever once the connection or session is gone
+//@@ end
+}
+//@@ type file=fe2o3-amqp/src/session/error.rs kind=enum name=BeginError
+//@@ end
+impl ErrInto<BeginError> for SessionStateError {
+    open spec fn conv(self) -> BeginError {
+        match self {
+            SessionStateError::IllegalState => BeginError::IllegalState,
+            SessionStateError::ConnectionStopped(reason) => BeginError::ConnectionStopped(reason),
+            SessionStateError::RemoteEnded => BeginError::RemoteEnded,
+            SessionStateError::RemoteEndedWithError(err) => BeginError::RemoteEndedWithError(err),
+        }
+    }
+//@@ fn file=fe2o3-amqp/src/session/error.rs impl=`impl From<SessionStateError> for BeginError` name=from as=err_into
+//@@ subst `(error: SessionStateError)` => `(self)` rule=R16
+//@@ subst `match error {` => `match self {` rule=R16
+//@@ subst `Self::` => `BeginError::` rule=R16
+//@@ ret BeginError
+//@@ end
+}
+impl SessionEngine {
+//@@ fn file=fe2o3-amqp/src/session/engine.rs impl=`~impl<S>SessionEngine<S>whereS:endpoint::Session,BeginError:From<S::BeginError>,` name=begin_client_session
+//@@ qmark
+//@@ param conn_control : ConnCtlTx
+//@@ param session : SessS
+//@@ param control : SessCtlRx
+//@@ param incoming : SessInRx
+//@@ param outgoing : ChanSender<SessionFrame>
+//@@ param outgoing_link_frames : ChanReceiver<LinkFrame>
+//@@ subst `&engine.outgoing` => `&mut engine.outgoing` rule=R9
+//@@ spec
+    ensures
+        r is Ok ==> ({
+            let e = r->Ok_0;
+            &&& e.outgoing.sent@.len() == outgoing.sent@.len() + 1 && e.outgoing.sent@.drop_last() == outgoing.sent@
+                && e.outgoing.sent@.last().channel == session.ch && e.outgoing.sent@.last().body is Begin                 // [C13.session.begin-handshake.begin-sent-once] a session comes up only after its own begin has gone out -- exactly one, on its own channel
+            &&& incoming.pending@.len() > 0 && incoming.pending@[0].body is Begin
+                && e.session.begun_with@ == Some((IncomingChannel(incoming.pending@[0].channel), incoming.pending@[0].body->Begin_0))   // [C13.session.begin-handshake.peers-begin-taken-over] [C11.session.begin-handshake.channel-as-arrived] ... and the peer's answering begin (its windows, its handle-max) has been taken over by the session, with the channel it arrived on
+            &&& e.incoming.pending@ == incoming.pending@.skip(1)                                                           // [C01.session.begin-handshake.nothing-else-consumed] nothing behind the begin is consumed: frames the peer pipelines behind its begin stay for the engine
+        }),
+        incoming.pending@.len() > 0 && incoming.pending@[0].body is End ==> r is Err,                                          // [C13.session.begin-handshake.no-session-on-an-end] a peer that answers the begin with an end: no session comes up
+        r is Err && r->Err_0 is RemoteEndedWithError ==> incoming.pending@.len() > 0 && incoming.pending@[0].body is End
+            && incoming.pending@[0].body->End_0.error == Some(r->Err_0->RemoteEndedWithError_0),                               // [C14.session.begin-handshake.peers-end-error-reported] an error reported as the PEER's is the error condition of the peer's end frame, unchanged
+        r is Err && r->Err_0 is RemoteEnded ==> incoming.pending@.len() > 0 && incoming.pending@[0].body is End && incoming.pending@[0].body->End_0.error is None,
+        incoming.pending@.len() > 0 && !(incoming.pending@[0].body is End) && !(incoming.pending@[0].body is Begin) ==> r is Err,   // [C15.session.begin-handshake.other-frame-refused] any other frame in place of the answering begin is refused (an error, no panic), the session does not come up
 //@@ end
 }
 impl SessionEngine {
